@@ -62,7 +62,7 @@ WireRun(h) == h.out.set /\ h.par.entry = "proto"
 snt1(h) == SentOfRun(h, 1)
 dl1(h) == DelOfRun(h, 1)
 
-PropIds == {"C16", "C17", "C18", "C12", "C01", "C02", "C03", "C04", "C05", "C06", "C07", "C08", "C09", "C10", "C11", "C15", "C19", "C20"}
+PropIds == {"C13", "C16", "C17", "C18", "C12", "C01", "C02", "C03", "C04", "C05", "C06", "C07", "C08", "C09", "C10", "C11", "C15", "C19", "C20"}
 ReqRun(h) == h.out.set /\ h.par.entry = "run"
 EngRun(h) == h.out.set /\ h.par.entry = "engine"
 
@@ -109,7 +109,8 @@ C12_twin(h, s) ==
 \* is property p applicable to the finished scenario h / does it hold (evaluated lazily, only when applicable)
 App(p, h) ==
     LET s == snt1(h)  ok == h.out.ok IN
-    CASE h.out.set /\ h.par.entry = "doc" -> p \in {"C16", "C17", "C18"}
+    CASE h.out.set /\ h.par.entry = "lab" -> p = "C13"
+      [] h.out.set /\ h.par.entry = "doc" -> p \in {"C16", "C17", "C18"}
       [] h.out.set /\ h.par.entry = "cache" -> p = "C18"
       [] h.out.set /\ h.par.entry = "pubip" -> p = "C18" \/ p = "C08"
       [] h.out.set /\ h.par.entry = "alloc" -> p = "C11"
@@ -129,7 +130,8 @@ App(p, h) ==
 
 Holds(p, h) ==
     LET s == snt1(h)  d == dl1(h)  hp == h.out.hops IN
-    CASE h.par.entry = "doc" -> (CASE p = "C16" -> C16_json(h.out) /\ Conforms(h.par.docin, h.out.doc)
+    CASE h.par.entry = "lab" -> C13_lab(h)
+      [] h.par.entry = "doc" -> (CASE p = "C16" -> C16_json(h.out) /\ Conforms(h.par.docin, h.out.doc)
                                    [] p = "C17" -> h.out.panic = "" /\ C17_json(h.par.docin, h.out)
                                    [] p = "C18" -> C18_json(h.par.docin, h.out) [] OTHER -> TRUE)
       [] h.par.entry = "cache" -> C18_cache(h.par.ttl_ms, h.got)
